@@ -7,7 +7,8 @@
    the result type of the model, so "never panics, always terminates" is "the result is Err or
    Ok". *)
 From Coq Require Import List ZArith Bool.
-From Mamba Require Import Codec.Model Codec.Spec Codec.G6Header Codec.G6Proofs Codec.TotalG6.
+From Mamba Require Import Codec.Model Codec.Spec Codec.G6Header Codec.G6Proofs Codec.TotalG6
+  Codec.S6Decode Codec.TotalS6.
 Import ListNotations.
 Open Scope Z_scope.
 
@@ -59,3 +60,35 @@ Example C08_graph6_reencode_nonvacuous :
   graph6_decode [67; 103; 94] = Ok (4, [true; false; true; false; false; false]) /\
   graph6_encode (graph_of_tri 4 [true; false; true; false; false; false]) = Ok [67; 103].
 Proof. vm_compute. split; reflexivity. Qed.
+
+(* ------------------------------------------------------------------ sparse6 *)
+(* Sparse6Decode, for every byte string: an error or a well-formed sparse graph (edges (v,x)
+   with 0 <= x < v < n, strictly ascending: no loop, no repeated edge, no vertex >= n) on the
+   declared number of vertices; never a panic (slice index, AddEdge out of range), and the loop
+   ends within the fuel 6*len(s)+8.  No bound on n is needed on the model: the property's
+   n <= 4096 bounds the allocation of NewSparse, which the model does not represent. *)
+Theorem C08_sparse6_total : forall s0, let s := strip hdr_sparse6 s0 in
+  sparse6_decode s0 = Err \/
+  exists n el, sparse6_decode s0 = Ok (n, el) /\ wf_sparse n el /\ s6_declared s = Some n /\
+               (length el <= 6 * length s0)%nat.
+Proof. exact sparse6_decode_total. Qed.
+Print Assumptions C08_sparse6_total.
+Example C08_sparse6_total_nonvacuous :
+  sparse6_decode [] = Err /\ sparse6_decode [58] = Err /\ sparse6_decode [58; 126] = Err /\
+  sparse6_decode [58; 65; 110] = Ok (2, [(1, 0)]) /\
+  (* pairs naming vertices >= n, a loop and a repeated edge are ignored *)
+  sparse6_decode [58; 67; 111; 78; 111; 78] = Ok (4, [(2, 0); (2, 1)]) /\
+  s6_declared [58; 67; 111; 78] = Some 4.
+Proof. vm_compute. repeat split; reflexivity. Qed.
+
+Theorem C08_sparse6_no_panic : forall s0,
+  sparse6_decode s0 <> Panic /\ sparse6_decode s0 <> OutOfFuel.
+Proof. exact sparse6_decode_no_panic. Qed.
+Print Assumptions C08_sparse6_no_panic.
+
+(* Sparse6Decode computes the reader of the format text on every string (loops and repeated
+   edges, which a SparseGraph cannot hold, are dropped by AddEdge: [norm]). *)
+Theorem C08_sparse6_decode_is_format : forall s0,
+  sparse6_decode s0 = s6_result (strip hdr_sparse6 s0).
+Proof. exact sparse6_decode_refines. Qed.
+Print Assumptions C08_sparse6_decode_is_format.
